@@ -61,8 +61,8 @@ CLAIMED = {
          'number of records bounded', '§4.C18'),
  "C19": ('other', "Dominion.read_cvrs executed symbolically on one session with two contests and up to 3 marks per contest (symbolic ranks and IsVote, both layouts, Modified absent / before / after Original, use_current and enforce_rules symbolic): recorded values equal the property's minimum-positive-rank rule and adjudicated data replace original ones for the contests they cover; sessions / groups / pooling for 2 sessions with symbolic groups and options. Sampled native stand-in over generated exports.",
          'JSON structure bounded; json / re / open abstracted', '§4.C19'),
- "C20": ("other", "Bounded stand-in: candidate sets of size 2-4(5), every alternative winner, single-assertion sets exhaustively and random assertion "
-         "sets, against brute force over all elimination orders; tags, marker and parseAssertions translation checked.", "bounded only", "§4.C20"),
+ "C20": ("other", "buildRemainingTreeAsLists executed symbolically for 3 candidates with SYMBOLIC assertion sets (1-3 NEB slots with symbolic loser/winner, one NEN slot per possible eliminated set with a symbolic candidate, symbolic proved flags): unpruned leaf iff some order survives, leaves tagged iff contradicted, tags = firing NEB slots, no contradicted ancestor. Bounded stand-in: candidate sets of size 2-4(5) with random / exhaustive assertion sets against brute force over all orders; rendering and parseAssertions.",
+         "candidate count bounded; recursion not proved by induction", "§4.C20"),
 }
 TECH_PROOF = ("contract-based deductive verification: sidecar contracts on the real functions, VCs generated from /repo's AST by pyvc, "
               "discharged by z3 (cvc5 on unknown); counter-models refuted at concrete lengths and replayed on the real code")
@@ -70,7 +70,7 @@ TECH_MIX = ("contract-based deductive verification (pyvc VCs from /repo's AST, z
             "by bounded stand-ins (structure-bounded symbolic obligations and exhaustive small-scope run-time contract checks), labelled bounded")
 TECH_BOUNDED = ("bounded stand-in only (exhaustive small-scope run-time contract checking of the real function against an oracle written from the "
                 "property text); the contract is stated but no deductive proof of this function is within reach of the VC generator yet")
-ONLY_BOUNDED = {"C04", "C15", "C20"}
+ONLY_BOUNDED = {"C04", "C15"}
 NA_REASON = "check not built yet (construction in progress; planned as in DESIGN.md §4)"
 
 def main():
